@@ -107,7 +107,7 @@ def compile_ir(cmd, outdir, flavour='configured', extra=()):
     text = normalise_new_helpers(text, cmd['unit'])
     if renamed:
         text += ''.join(f'\n; lecverif: file-local function {g} stands for {f_} of the reference tree (same signature, same referrers)' for g, f_ in sorted(renamed.items())) + '\n'
-    text2 = fold_select_compares(split_struct_allocas(text))
+    text2 = fold_select_compares(fold_const_table_loads(split_struct_allocas(text)))
     if text2 is not text:
         p3 = subprocess.run(['opt-14', '-S', '-passes=' + passes, '-o', '-'], input=text2, text=True, capture_output=True)
         if p3.returncode != 0:
@@ -121,7 +121,10 @@ def compile_ir(cmd, outdir, flavour='configured', extra=()):
 # subexpression / redundant load elimination, threading of branches over phi-of-constants (status variables, merged error
 # exits) and CFG clean-up (if-chains on one value become a switch, two-armed diamonds become selects).  Behaviour-preserving
 # rewrites of the source converge on the same shape; nothing is inlined except helpers that are new w.r.t. the reference tree.
-NORMALISE = 'function(sroa,mem2reg,instsimplify,early-cse,jump-threading,simplifycfg,instsimplify,simplifycfg)'
+NORMALISE = ('function(sroa,mem2reg,instsimplify,early-cse,'
+             # loops with a constant trip count of at most 6 (a walk over a two-entry table of function pointers, ...) are unrolled
+             'loop-simplify,loop-unroll<O2;full-unroll-max=6;no-partial;no-runtime;no-peeling;no-upperbound>,instsimplify,early-cse,'
+             'jump-threading,simplifycfg,instsimplify,simplifycfg)')
 
 def _split_top(sx):
     out, depth, tok = [], 0, ''
@@ -265,6 +268,97 @@ def split_struct_allocas(text):
         n += 1
     return '\n'.join(lines) if changed else text
 
+def fold_const_table_loads(text):
+    """`static const int code[] = {...}; return code[verdict];` with `verdict` chosen among a few enumerators on the paths of the
+    function is the table-driven way of writing `return cond ? A : B`.  Where the index of a load from a constant integer array is
+    (a merge / conditional expression of) integer constants, the load is replaced by the same merge of the looked-up elements, so
+    that rules which follow returned constants see them.  Returns `text` itself when nothing matched."""
+    tables = {}
+    for m in re.finditer(r'^(@[\w.$]+) = (?:internal |private |dso_local )*(?:unnamed_addr )?constant \[(\d+) x (i\d+)\] (\[.*\]|zeroinitializer)(?:, align \d+)?(?:, !dbg !\d+)?\s*$', text, re.M):
+        name, n, ety, init = m.group(1), int(m.group(2)), m.group(3), m.group(4)
+        if init == 'zeroinitializer':
+            vals = [0] * n
+        else:
+            vals = [int(x) for x in re.findall(r'i\d+ (-?\d+)', init)]
+        if len(vals) == n:
+            tables[name] = (ety, vals)
+    if not tables:
+        return text
+    lines = text.split('\n')
+    changed = False
+    start = None
+    uid = [0]
+    for n, ln in enumerate(lines):
+        if ln.startswith('define '):
+            start = n
+        elif ln == '}' and start is not None:
+            defs = {}
+            for k in range(start + 1, n):
+                m = re.match(r'\s*(%[\w.]+) = (\w+) (.*)$', lines[k])
+                if m:
+                    defs[m.group(1)] = (k, m.group(2), m.group(3))
+            inserts = {}
+            def mapped(v, ety, vals, depth=0):
+                """textual operand holding vals[v], or None"""
+                if re.match(r'-?\d+$', v):
+                    iv = int(v)
+                    return str(vals[iv]) if 0 <= iv < len(vals) else None
+                d = defs.get(v)
+                if d is None or depth > 6:
+                    return None
+                k, op, rest = d
+                if op in ('zext', 'sext', 'trunc'):
+                    mm = re.match(r'i\d+ (%[\w.]+|-?\d+) to i\d+', rest)
+                    return mapped(mm.group(1), ety, vals, depth + 1) if mm else None
+                if op == 'select':
+                    mm = re.match(r'i1 (%[\w.]+), i\d+ (%[\w.]+|-?\d+), i\d+ (%[\w.]+|-?\d+)', rest)
+                    if not mm:
+                        return None
+                    a, b = mapped(mm.group(2), ety, vals, depth + 1), mapped(mm.group(3), ety, vals, depth + 1)
+                    if a is None or b is None:
+                        return None
+                    uid[0] += 1
+                    nm = f'%tbl.{uid[0]}'
+                    inserts.setdefault(k, []).append(f'  {nm} = select i1 {mm.group(1)}, {ety} {a}, {ety} {b}')
+                    return nm
+                if op == 'phi':
+                    inc = re.findall(r'\[ (%[\w.]+|-?\d+), (%[\w.]+) \]', rest)
+                    if not inc:
+                        return None
+                    outs = []
+                    for val_, lab in inc:
+                        x = mapped(val_, ety, vals, depth + 1)
+                        if x is None:
+                            return None
+                        outs.append(f'[ {x}, {lab} ]')
+                    uid[0] += 1
+                    nm = f'%tbl.{uid[0]}'
+                    inserts.setdefault(k, []).append(f'  {nm} = phi {ety} ' + ', '.join(outs))
+                    return nm
+                return None
+            for k in range(start + 1, n):
+                g = re.match(r'\s*(%[\w.]+) = getelementptr inbounds \[(\d+) x (i\d+)\], \[\d+ x i\d+\]\* (@[\w.$]+), i\d+ 0, i\d+ (%[\w.]+)', lines[k])
+                if not g or g.group(4) not in tables:
+                    continue
+                ety, vals = tables[g.group(4)]
+                users = [j for j in range(start + 1, n) if j != k and re.search(r'(?<![\w.])' + re.escape(g.group(1)) + r'(?![\w.])', lines[j])]
+                if len(users) != 1:
+                    continue
+                ld = re.match(r'(\s*)(%[\w.]+) = load ' + re.escape(ety) + r', ' + re.escape(ety) + r'\* ' + re.escape(g.group(1)) + r'\b(.*)$', lines[users[0]])
+                if not ld:
+                    continue
+                keep = dict(inserts)
+                val = mapped(g.group(5), ety, vals)
+                if val is None:
+                    inserts.clear(); inserts.update(keep)
+                    continue
+                lines[users[0]] = f'{ld.group(1)}{ld.group(2)} = add {ety} {val}, 0'        # the address computation stays (dead): unnamed values keep their numbers
+                changed = True
+            for k, extra in inserts.items():
+                lines[k] = lines[k] + '\n' + '\n'.join(extra)
+            start = None
+    return '\n'.join(lines) if changed else text
+
 _NEGP = {'eq': 'ne', 'ne': 'eq', 'slt': 'sge', 'sge': 'slt', 'sgt': 'sle', 'sle': 'sgt', 'ult': 'uge', 'uge': 'ult', 'ugt': 'ule', 'ule': 'ugt'}
 
 def fold_select_compares(text):
@@ -288,6 +382,38 @@ def fold_select_compares(text):
                 m = re.match(r'\s*(%[\w.]+) = icmp (\w+) (.*?)(, !dbg !\d+)?$', lines[k])
                 if m:
                     cmpdef[m.group(1)] = (m.group(2), m.group(3))
+            # `h = ok ? hdr : NULL; if (h == NULL) ...` : (c ? p : NULL) == NULL  <=>  !c || p == NULL
+            psel = {}
+            for k in range(start, n):
+                m = re.match(r'\s*(%[\w.]+) = select i1 (%[\w.]+), (\S.*?\*) (%[\w.]+|null), \3 (%[\w.]+|null)(, !dbg !\d+)?$', lines[k])
+                if m and (m.group(4) == 'null') != (m.group(5) == 'null'):
+                    psel[m.group(1)] = (m.group(2), m.group(3), m.group(4), m.group(5))
+            for k in range(start, n):
+                if not psel:
+                    break
+                m = re.match(r'(\s*)(%[\w.]+) = icmp (eq|ne) (\S.*?\*) (%[\w.]+|null), (%[\w.]+|null)(, !dbg !\d+)?$', lines[k])
+                if not m:
+                    continue
+                a, b = m.group(5), m.group(6)
+                sv = a if (a in psel and b == 'null') else (b if (b in psel and a == 'null') else None)
+                if sv is None or psel[sv][1] != m.group(4):
+                    continue
+                c, ty, tv, fv = psel[sv]
+                ptr = tv if fv == 'null' else fv
+                ind, res, dbg = m.group(1), m.group(2), m.group(7) or ''
+                tag = res[1:].replace('.', '_')
+                # "is NULL" = (the NULL arm was chosen) or (the pointer arm is NULL itself)
+                chose_null = f'{ind}%nsel.c.{tag} = xor i1 {c}, true' if fv == 'null' else f'{ind}%nsel.c.{tag} = and i1 {c}, true'
+                new = [chose_null,
+                       f'{ind}%nsel.nn.{tag} = icmp ne {ty} {ptr}, null',
+                       f'{ind}%nsel.pn.{tag} = xor i1 %nsel.nn.{tag}, true',
+                       f'{ind}%nsel.isnull.{tag} = or i1 %nsel.c.{tag}, %nsel.pn.{tag}']
+                if m.group(3) == 'eq':
+                    new.append(f'{ind}{res} = and i1 %nsel.isnull.{tag}, true{dbg}')
+                else:
+                    new.append(f'{ind}{res} = xor i1 %nsel.isnull.{tag}, true{dbg}')
+                lines[k] = '\n'.join(new)
+                changed = True
             if sel:
                 for k in range(start, n):
                     m = re.match(r'(\s*)(%[\w.]+) = icmp (eq|ne) (i\d+) (%[\w.]+|-?\d+), (%[\w.]+|-?\d+)(, !dbg !\d+)?$', lines[k])
